@@ -73,3 +73,25 @@ Definition sx_synthetic (g : gsel_t) (cutoff : Z) (adds rems vals : list Z) : sx
                       sx_zpairs (select Z Z Z.eqb Z.ltb Z.eqb cutoff (trips Z Z loop_none (tz_dist t) adds rems))]
       | [] => SL []
       end].
+
+(* ---- the decision whether pairs are computed (get_pairs / max_passes) ---- *)
+From Coq Require Import QArith.
+Close Scope Q_scope.
+(* the type of DDGen.DiffIOGen.g__diff_iterable_with_deephash_pairs *)
+Definition gdec_t := forall (A D : Type), (A -> A -> bool) -> (D -> D -> bool) -> (D -> D -> bool) ->
+  (A -> bool) -> (A -> A -> D) -> D -> Q -> N -> N -> N -> N -> list A -> list A -> list (A * A) * N.
+Definition dec_grid : list (Q * N * N * nat * nat) :=
+  flat_map (fun cut => flat_map (fun maxp => flat_map (fun passes => flat_map (fun na => map (fun nr => (cut, maxp, passes, na, nr)) [0; 1; 2; 3]%nat)
+    [0; 1; 2; 3]%nat) [0; 1; 2]%N) [0; 1; 2; 10000000]%N) [0 # 1; 1 # 2; 7 # 10; 1 # 1]%Q.
+Definition dec_differs (g : gdec_t) (x : Q * N * N * nat * nat) : bool :=
+  let '(cut, maxp, passes, na, nr) := x in
+  let adds := map Z.of_nat (seq 0 na) in
+  let rems := map Z.of_nat (seq 10 nr) in
+  let a := g Z Z Z.eqb Z.ltb Z.eqb loop_none (fun _ _ => 1%Z) 4%Z cut maxp passes 3%N 3%N adds rems in
+  let b := level_pairs_spec Z Z Z.eqb Z.ltb Z.eqb loop_none (fun _ _ => 1%Z) 4%Z cut maxp passes 3%N 3%N adds rems in
+  negb (zpairs_eqb (fst a) (fst b) && N.eqb (snd a) (snd b)).
+Definition sx_decision (g : gdec_t) : sx :=
+  let d := filter (dec_differs g) dec_grid in
+  SL [SZ (Z.of_nat (List.length dec_grid)); SZ (Z.of_nat (List.length d));
+      SL (map (fun x => let '(cut, maxp, passes, na, nr) := x in
+                        SL [SZ (Qnum cut); SZ (Zpos (Qden cut)); SZ (Z.of_N maxp); SZ (Z.of_N passes); sx_nat na; sx_nat nr]) (firstn 4 d))].
